@@ -27,8 +27,45 @@ pub fn run_program(p: &Program, verbose: bool, passthrough: bool) -> RunResult {
     crate::with_family!(p.family, run_family, p, verbose, passthrough)
 }
 
+/// Compile-time facts of C11/C12 (one pointer wide, null niche). Not simulation: evaluated once
+/// per run because it is free; a mismatch is reported like any other violation.
+fn static_facts<F: Family>() {
+    use std::mem::size_of;
+    use triomphe::{Arc, ArcBorrow, ArcUnion, HeaderSlice, OffsetArc, ThinArc, UniqueArc};
+    let w = size_of::<usize>();
+    let facts: [(&str, usize, usize); 18] = [
+        ("Arc<P>", size_of::<Arc<F::P>>(), w),
+        ("Option<Arc<P>>", size_of::<Option<Arc<F::P>>>(), w),
+        ("Arc<Q>", size_of::<Arc<F::Q>>(), w),
+        ("OffsetArc<P>", size_of::<OffsetArc<F::P>>(), w),
+        ("Option<OffsetArc<P>>", size_of::<Option<OffsetArc<F::P>>>(), w),
+        ("ThinArc<H,E>", size_of::<ThinArc<F::H, F::E>>(), w),
+        ("Option<ThinArc<H,E>>", size_of::<Option<ThinArc<F::H, F::E>>>(), w),
+        ("ArcBorrow<P>", size_of::<ArcBorrow<'static, F::P>>(), w),
+        ("Option<ArcBorrow<P>>", size_of::<Option<ArcBorrow<'static, F::P>>>(), w),
+        ("UniqueArc<P>", size_of::<UniqueArc<F::P>>(), w),
+        ("Option<UniqueArc<P>>", size_of::<Option<UniqueArc<F::P>>>(), w),
+        ("Arc<[E]>", size_of::<Arc<[F::E]>>(), 2 * w),
+        ("Option<Arc<[E]>>", size_of::<Option<Arc<[F::E]>>>(), 2 * w),
+        ("Arc<dyn Probe>", size_of::<Arc<dyn crate::handle::Probe>>(), 2 * w),
+        ("Arc<HeaderSlice<H,[E]>>", size_of::<Arc<HeaderSlice<F::H, [F::E]>>>(), 2 * w),
+        ("Arc<str>", size_of::<Arc<str>>(), 2 * w),
+        ("ArcUnion<P,Q>", size_of::<ArcUnion<F::P, F::Q>>(), w),
+        ("Option<ArcUnion<P,Q>>", size_of::<Option<ArcUnion<F::P, F::Q>>>(), w),
+    ];
+    for (name, got, want) in facts {
+        if got != want {
+            violation(
+                if name.contains("ArcUnion") { "union-size" } else { "size:handle" },
+                format!("size_of::<{}>() is {} bytes, specified {} ({})", name, got, want, F::NAME),
+            );
+        }
+    }
+}
+
 fn run_family<F: Family>(p: &Program, verbose: bool, passthrough: bool) -> RunResult {
     let _nt = NoTrack::new();
+    static_facts::<F>();
     reset_registry();
     crate::context::clear();
     reg(|r| r.fault = p.fault);
